@@ -338,6 +338,52 @@ def rule_R4(body: str, log, where):
     return body
 
 
+def rule_R15(body: str, log, where):
+    """`for .. { A; if c { B; continue; } REST }`  ->  `for .. { A; if c { B } else { REST } }`  (guard-continue; Verus has no
+    `continue` in `for`). Only when the `if` has no `else`, its block ends with `continue;` and it is a direct statement of the
+    loop body; anything else is left alone (and then rejected by the front end)."""
+    for _ in range(8):
+        mask = mask_rust(body)
+        done = True
+        for m in re.finditer(r"\bcontinue\s*;\s*\}", mask):
+            close_if = m.end() - 1
+            # matching `{` of the if block
+            depth, k = 0, close_if
+            while k >= 0:
+                if mask[k] == "}":
+                    depth += 1
+                elif mask[k] == "{":
+                    depth -= 1
+                    if depth == 0:
+                        break
+                k -= 1
+            open_if = k
+            # enclosing loop body whose direct child this if is
+            spans = [sp for sp in loop_spans(mask) if sp[1] < open_if and close_if < sp[2]]
+            if not spans:
+                continue
+            kw, b_open, b_close = max(spans, key=lambda sp: sp[1])
+            inner = mask[b_open + 1:open_if]
+            if inner.count("{") != inner.count("}"):
+                continue                      # nested deeper than the loop body
+            stmt_start = max(inner.rfind(";"), inner.rfind("}")) + 1
+            head = inner[stmt_start:].strip()
+            if not re.match(r"if\b", head) or re.search(r"\belse\s*$", head):
+                continue
+            after = mask[close_if + 1:b_close]
+            if re.match(r"\s*else\b", after):
+                continue
+            rest = body[close_if + 1:b_close]
+            new_if_block = body[open_if:m.start()].rstrip()
+            body = body[:open_if] + new_if_block + " } else {" + rest + "} " + body[b_close:]
+            log.append({"rule": "R15", "where": where, "before": "if c { ..; continue; } REST", "after": "if c { .. } else { REST }"})
+            done = False
+            break
+        if done:
+            break
+    return body
+
+
 def apply_rewrite(body, rule, frm, to, allocc, log, where):
     """exact-text rewrite. A missing anchor is NOT fatal: the rule is skipped and logged (`missed`), the real text
     goes to Verus unrewritten and either verifies, fails (violation) or is rejected by the front end (undecided).
@@ -961,6 +1007,8 @@ def generate(unit, template_path, canary=False, extra_fns=()):
                 newsig += " " + wh.replace("\n", " ")
             # --- body rewrites
             body = rule_R4(body, g.rewrites, where)
+            if re.search(r"\bcontinue\b", mask_rust(body)):
+                body = rule_R15(body, g.rewrites, where)
             if re.search(r"\(\s*mut\s+self\b", newsig):
                 # R14: `fn f(mut self, ..) { B }` -> `fn f(self, ..) { let mut self_ = self; B[self := self_] }` (alpha-renaming
                 # of a by-value binding; Verus has no `mut self`)
